@@ -1,6 +1,6 @@
 #!/bin/sh
-# round-2 seeding agent: prep_agent2.sh <id>   (worktree /tmp/wt_<id>r2, out /tmp/seed/<id>r2)
-ID=$1; SUF=r2
+# later-round seeding agent: prep_agent2.sh <id> [suffix=r2]   (worktree /tmp/wt_<id><suffix>, out /tmp/seed/<id><suffix>)
+ID=$1; SUF=${2:-r2}
 mkdir -p /tmp/seed
 cd /repo && git worktree add -q --detach /tmp/wt_$ID$SUF HEAD && mkdir -p /tmp/seed/$ID$SUF
 python3 - $ID "$SUF" <<'PY'
